@@ -175,6 +175,18 @@ C04_Scrub(c, f, pr, a, s, o) ==
        ELSE IF (affected # {}) # (o.rc # 0) THEN <<<<"C04", "scrub-exit", o>>>>
        ELSE <<>>
 
+(* C19: blocks recorded as synced whose hash is not the hash of the file's data although the file has the recorded
+   size and time stamp (only meaningful while no silent corruption was injected) *)
+C19_Wrong(c, f) == {y \in AllFiles(c) \X (1..64) :
+                      LET d == y[1][1]
+                          n == y[1][2]
+                          i == y[2]
+                      IN /\ i <= Len(c.cf[d][n].bl)
+                         /\ c.cf[d][n].bl[i].st = "BLK"
+                         /\ n \in DOMAIN f[d] /\ f[d][n].sz = c.cf[d][n].sz /\ f[d][n].mt = c.cf[d][n].mt
+                         /\ i <= Len(f[d][n].b)
+                         /\ HashOf(f[d][n].b[i], BlkLen(c.cf[d][n].sz, i)) # c.cf[d][n].bl[i].h}
+
 (* C12: frames, on byte-level digests of the three kinds of files *)
 C12_Frame(cmd, s) ==
     LET keepF == cmd \in {"Check", "Diff", "Scrub", "Sync"}
@@ -232,12 +244,13 @@ SyncStep ==
            r == SyncResult(C, fs, fs1, par, a.now, a.opts, SrcsOf(a))
            okC == r.C = LoggedC(Ev.state)
            okP == ParAgrees(r.par, Ev.state)
-           okO == IF r.out.exit \in {"refused", "abort"} THEN Ev.out.exit = "stopped"
+           okO == IF r.out.exit \in {"refused", "abort", "prehash-stop"} THEN Ev.out.exit = "stopped"
                   ELSE r.out.exit = Ev.out.exit /\ r.out.err = Ev.out.err /\ r.out.silent = Ev.out.silent
            okF == Ev.state.fs = fs1
            L0 == ClearPast(C)
            newc == LoggedC(Ev.state)
            fullrebuild == a.opts.force_full /\ a.opts.bstart = 0 /\ a.opts.bcount = 0 /\ a.opts.stop = 0
+           fullsync == a.opts.bstart = 0 /\ a.opts.bcount = 0 /\ a.opts.stop = 0 /\ ~a.opts.kill_after
        IN /\ Follow(Ev.state, r.par)
           /\ diag' = IF okC /\ okP /\ okO /\ okF THEN <<>>
                      ELSE <<"Sync", l, [okC |-> okC, okP |-> okP, okO |-> okO, okF |-> okF],
@@ -252,7 +265,13 @@ SyncStep ==
           /\ pviol' = (IF "fs1" \in DOMAIN Ev THEN <<>> ELSE C12_Frame("Sync", Ev.state)) \o
                       (IF r.out.exit = "refused" /\ (Ev.out.rc = 0 \/ Ev.state.sha.c # sha.c \/ ~SamePar(Ev.state.sha.p, sha.p))
                        THEN <<<<"C14", "interlock-did-not-hold", [rc |-> Ev.out.rc, before |-> sha, after |-> Ev.state.sha]>>>> ELSE <<>>) \o
-                      (IF "expect_refused" \in DOMAIN a /\ r.out.exit # "refused" THEN <<<<"C14", "model-does-not-refuse", a.flags>>>> ELSE <<>>)
+                      (IF "expect_refused" \in DOMAIN a /\ r.out.exit # "refused" THEN <<<<"C14", "model-does-not-refuse", a.flags>>>> ELSE <<>>) \o
+                      \* C19: a block is recorded as synced only with the hash of the data that was read; with pre-hash a
+                      \* mismatch stops the sync before any parity is written
+                      (IF ~dmg /\ "fs1" \notin DOMAIN Ev /\ Ev.out.exit = "ok" /\ fullsync /\ C19_Wrong(newc, Ev.state.fs) # {}
+                       THEN <<<<"C19", "synced-block-hash-is-not-the-hash-of-the-data", C19_Wrong(newc, Ev.state.fs)>>>> ELSE <<>>) \o
+                      (IF r.out.exit = "prehash-stop" /\ ~SamePar(Ev.state.sha.p, sha.p)
+                       THEN <<<<"C19", "prehash-mismatch-but-parity-written", <<>>>>>> ELSE <<>>)
           /\ afterfix' = FALSE
 
 (* a sync that was killed (SIGKILL at some system call): the content copy that loads is the old state, the
@@ -293,11 +312,12 @@ SyncKilledStep ==
           /\ UNCHANGED <<snap, dmg>>
 
 SelOf(a) == [d \in D |-> ToSet(a.sel[d])]
+ExtOf(a) == IF "ext" \in DOMAIN a THEN [stamp |-> ToSet(a.ext.stamp), blocks |-> ToSet(a.ext.blocks)] ELSE NoExt
 
 CheckStep ==
     /\ IsEvent("Check")
     /\ LET a == Ev.args
-           r == CheckResultR(C, fs, par, PresentOf(a), a.audit, a.range)
+           r == CheckResultX(C, fs, par, PresentOf(a), a.audit, a.range, ExtOf(a))
            okO == r.exit = Ev.out.exit /\ r.derr = PairSet(Ev.out.derr) /\ (a.audit \/ r.perr = PairSet(Ev.out.perr))
            okS == LoggedC(Ev.state) = C /\ Ev.state.fs = fs /\ ParAgrees(par, Ev.state)
        IN /\ Follow(Ev.state, par)
@@ -314,7 +334,7 @@ CheckStep ==
 FixStep ==
     /\ IsEvent("Fix")
     /\ LET a == Ev.args
-           r == FixRange(C, fs, par, PresentOf(a), SelOf(a), a.range)
+           r == FixRangeX(C, fs, par, PresentOf(a), SelOf(a), a.range, ExtOf(a))
            whole == a.range.bstart = 0 /\ a.range.bcount = 0
            okF == SameFs(r.fs, Ev.state.fs)
            okP == ParAgrees(r.par, Ev.state)
@@ -324,14 +344,18 @@ FixStep ==
                   /\ r.out.recovered = PairSet(Ev.out.recovered)
            c01 == clean /\ WithinBounds(C, fs, par)
        IN /\ Follow(Ev.state, r.par)
-          /\ diag' = IF "goal" \in DOMAIN a /\ a.goal \notin UNION {r.R[q].path : q \in DOMAIN r.R}
+          \* observation O1: fix stops with "file ... disappeared" when a file it has just renamed to .unrecoverable
+          \* (or removed) is still a candidate of the search by size and time stamp (search.c:83); such a run is only
+          \* held to the frame conditions, like a killed fix
+          /\ diag' = IF Ev.out.exit = "none" /\ Ev.out.rc # 0 /\ r.out.exit # "none" /\ Ev.out.disappeared THEN <<>>
+                     ELSE IF "goal" \in DOMAIN a /\ a.goal \notin UNION {r.R[q].path : q \in DOMAIN r.R}
                      THEN <<"witness-goal-not-covered", l, a.goal, UNION {r.R[q].path : q \in DOMAIN r.R}>>
                      ELSE IF "expect_c01" \in DOMAIN a /\ ~c01 THEN <<"C01-precondition-not-met", l, [clean |-> clean, within |-> WithinBounds(C, fs, par)]>>
                      ELSE IF okF /\ okP /\ okC /\ okO THEN <<>>
                      ELSE <<"Fix", l, [okF |-> okF, okP |-> okP, okC |-> okC, okO |-> okO],
                             IF ~okF THEN r.fs ELSE <<>>, IF ~okP THEN r.par ELSE <<>>, r.out, Ev.out>>
           /\ pviol' = C12_Frame("Fix", Ev.state) \o
-                      (IF whole THEN C05_Fix(C, ghost, fs, Ev.state, Ev.out, SelOf(a)) ELSE <<>>) \o
+                      (IF whole /\ ~(Ev.out.exit = "none" /\ Ev.out.rc # 0) THEN C05_Fix(C, ghost, fs, Ev.state, Ev.out, SelOf(a)) ELSE <<>>) \o
                       (IF c01 /\ whole THEN C01_Fix(C, fs, par, Ev.state, Ev.out) ELSE <<>>)
           /\ afterfix' = (c01 /\ whole)
           /\ UNCHANGED <<clean, snap, dmg, ghost>>
